@@ -43,7 +43,7 @@ NOTES = {
     "C14-m12": "MISSED at first contact (only text tokens were offered to Deserialize); caught since ~50 non-text tokens per case are offered to every owned type (DESIGN.md 10.5)",
     "C13-m12": "an ORDER mistake on one cross-type route (UriRefBuf ? &Uri): C08's cross-type block is where it belongs and catches it; C13's statement (embedding, conversions) is not violated by it",
     "C19-m12": "the decoded views are wrong because RiRef::suffix hands back the wrong query/fragment: that is C16's subject (caught there); C19's own views of the value's real components stay faithful",
-    "C06-m13": "MISSED at first contact by C06 and C09 (a '..' looking at stack slot 15 instead of the top once more than 16 '..' are kept); caught by C09 since the deep-stack sweep (k kept '..' / k ordinary segments, k = 0..40 and around 64/128/256, x every tail of <= 4 segments over {a, .., .}); the mistake sits in NormalizedSegments, C09's subject - C06's random references do not carry 16 leading '..' (DESIGN.md 10.5)",
+    "C06-m13": "MISSED at first contact by C06 and C09 (a '..' looking at stack slot 15 instead of the top once more than 16 '..' are kept); caught since the deep-stack sweeps: C09 - k kept '..' / k ordinary segments (k = 0..40, around 64/128/256) x every tail of <= 4 segments over {a, .., .}; C06 - the same depths as relative reference, behind the reference's own scheme and as the base's path (DESIGN.md 10.5)",
     "C14-m8": "a reference -> full-value conversion (TryFrom<&UriRef> for &Uri ...) is refused for schemes of 65 535 bytes and more: that is C13's subject (caught there), not one of C14's textual routes",
 }
 
